@@ -183,7 +183,7 @@ def check(d, S, timeout_ms=10000):
     if d1.size() != d2.size():
         return ('failed', 'width', 'width %d becomes %d: %s evaluates to %s' % (d1.size(), d2.size(), e1, r), wit)
     s1 = z3.simplify(d1)
-    if all_inputs_constant(d, S) and type(r).__name__ != 'ExprInt' and z3.is_bv_value(s1):
+    if all_inputs_constant(d, S) and type(r).__name__ != 'ExprInt' and z3.is_bv_value(s1) and not st.defined:
         # every input is a constant: the result must be the constant
         return ('failed', 'constant', 'all inputs constant (value 0x%x) but result is %s' % (s1.as_long(), r), dict(wit, **{'int': True}))
     if d1.eq(d2):
@@ -194,6 +194,8 @@ def check(d, S, timeout_ms=10000):
     s = z3.SolverFor('QF_AUFBV')
     s.set('timeout', timeout_ms)
     s.add(g)
+    for c in st.defined:        # bsf/bsr of 0 and division by 0 are undefined: not constrained
+        s.add(c)
     rr = s.check()
     if rr == z3.unsat:
         return ('ok', 'sem', 'z3', None)
